@@ -130,3 +130,36 @@ def summary(pid: str, cov_dir: str | None) -> dict | None:
                     "every worker process (sys.monitoring); import-time lines count as executed; measurement only",
             "executable": tot, "executed": got, "percent": round(100.0 * got / tot, 1) if tot else 0.0,
             "functions_never_entered": never, "files": files, "other_files": other}
+
+
+# ---------------------------------------------------------------- source fingerprints (DESIGN section 2.3)
+
+def fingerprint(pid: str) -> dict:
+    """hash of the normalised AST (comments and layout dropped) of every anchored file of the property"""
+    import hashlib
+    res = {}
+    for f in anchored_files(pid):
+        try:
+            res[f] = hashlib.sha256(ast.dump(ast.parse((lib.REPO / f).read_text())).encode()).hexdigest()[:16]
+        except Exception as e:  # noqa: BLE001
+            res[f] = "unparsable:" + type(e).__name__
+    return res
+
+
+def fingerprint_changed(pid: str) -> list[str]:
+    """anchored files whose AST differs from fingerprints/<pid>.json (committed; rewritten by ./check --fingerprint).
+    A changed fingerprint is NOT a violation: it makes the quick tier look harder on the run that follows the change."""
+    p = lib.VERIF / "fingerprints" / (pid + ".json")
+    if not p.exists():
+        return []
+    known = json.loads(p.read_text())
+    now = fingerprint(pid)
+    return sorted(f for f in set(known) | set(now) if known.get(f) != now.get(f))
+
+
+def write_fingerprints():
+    d = lib.VERIF / "fingerprints"
+    d.mkdir(exist_ok=True)
+    for l in open(lib.VERIF / "properties.jsonl"):
+        pid = json.loads(l)["id"]
+        (d / (pid + ".json")).write_text(json.dumps(fingerprint(pid), indent=1, sort_keys=True) + "\n")
